@@ -1,6 +1,6 @@
 """C04 output geometry comes from the inputs (partly decided: coordinate provenance from input vertices / clamped
 intersection points to result rings, endpoint guards).  Closedness, area and orientation of rings are not decided."""
-from rules import fillrules, pirules, cerules, segrules, oprules
+from rules import fillrules, pirules, cerules, segrules, oprules, booltables as bt
 
 LEVEL = 'other'
 EXPLANATION = __doc__
@@ -15,6 +15,9 @@ def run(ctx, rep):
     cerules.check_sinks(ctx, rep)
     oprules.check_assemble(ctx, rep, rule='G-sinks')
     oprules.check_trivial(ctx, rep, rule='G-sinks')
+    # rings close only if the edges are selected consistently: the selection / propagation tables are a necessary condition
+    bt.check_select(ctx, rep)
+    bt.check_prop(ctx, rep)
     # G-clamp, G-endpoint
     segrules.check_clamp(ctx, rep)
     pirules.check_endpoint_guards(ctx, rep)
